@@ -211,7 +211,7 @@ def ranges_subset(obs, allowed):
 def check_c13(root, prop, tier, seed, res):
     import vbuiltin
     from vcheck import CARGO_TOML
-    shapes = "abcd"   # all four shapes in both tiers (the forced "other" shape costs ~6 s)
+    shapes = "abcde"   # all shapes in both tiers (the forced "other" shape costs ~6 s; e: all built-ins in one lexer)
     eng = GenericEngine(root, prop, tier, seed)
     eng.prepare()
     src = vbuiltin.gen_source(shapes, vbuiltin.table_sizes())
@@ -244,6 +244,8 @@ def check_c13(root, prop, tier, seed, res):
         pairs += 1
         evals += r["accepted"] + r["rejected"]
         b, sh = r["builtin"], r["shape"]
+        if sh == "e":
+            sh = "e:" + r.get("kind", "") + ("+tail" if r.get("adj") == "plus_tail" else "")
         per["%s/%s" % (b, sh)] = {"accepted": r["accepted"], "rejected": r["rejected"], "missing": r["missing_count"], "extra": r["extra_count"]}
         if len(samples) < 3:
             samples.append({"builtin": b, "shape": sh, "accepted": r["accepted"], "rejected": r["rejected"]})
@@ -260,10 +262,10 @@ def check_c13(root, prop, tier, seed, res):
             bad = ranges_subset(obs, allowed)
             if bad is not None:
                 res.violations.append({
-                    "what": "$$%s (shape %s): U+%04X is %s although the Rust predicate says %s" % (
+                    "what": "$$%s (shape %s): U+%04X is %s although the Rust predicate (with the class adjustment of that shape) says %s" % (
                         b, sh, bad, "rejected" if kind == "missing" else "accepted", "true" if kind == "missing" else "false"),
                     "family": "builtin", "index": pairs, "builtin": b, "shape": sh,
-                    "definition": {"a": "$$%s = t" % b, "b": "$$%s '!' = t" % b, "c": "class-algebra variant of $$%s" % b, "d": "'!' > $$%s = t" % b}[sh],
+                    "definition": {"a": "$$%s = t" % b, "b": "$$%s '!' = t" % b, "c": "class-algebra variant of $$%s" % b, "d": "'!' > $$%s = t" % b}.get(sh, "all 20 built-ins in one lexer (60 rules: P $$B '!', Q ($$B | [U+10FFF0-U+10FFF1]) '!', R '!' > $$B); rule of $$%s, kind %s" % (b, sh)),
                     "input_shown": "U+%04X" % bad, "deviating_ranges_%s" % kind: obs[:50],
                 })
             else:
@@ -273,7 +275,7 @@ def check_c13(root, prop, tier, seed, res):
     res.coverage["evaluations"] = evals
     res.coverage["distinct_nontrivial"] = pairs
     res.coverage["exhaustive"] = True
-    res.coverage["rule"] = ("for each of the 20 built-in names and each generated membership-test shape (a: `$$B = t` per-range accept arms; b: `$$B '!' = t` guard chain or binary-search table; d: `'!' > $$B` right-context function; thorough adds c: the other lookup shape forced through class algebra) a one-rule lexer is expanded by the real macro and run on ALL 1,112,064 scalar values; oracle: the std / unicode-xid predicate. Non-trivial = (built-in, shape) pairs swept.")
+    res.coverage["rule"] = ("for each of the 20 built-in names and each generated membership-test shape (a: `$$B = t` per-range accept arms; b: `$$B '!' = t` guard chain or binary-search table; d: `'!' > $$B` right-context function; c: the other lookup shape forced through class algebra) a one-rule lexer is expanded by the real macro and run on ALL 1,112,064 scalar values; shape e: all 20 built-ins in ONE lexer, three rules each behind a private-use prefix character (`P $$B '!'`, `Q ($$B | [one trailing range]) '!'` whose range list extends that of $$B, `R '!' > $$B`), so that 30+ search tables, guard chains and 20 context functions coexist in one expansion, each again swept over all scalar values; oracle: the std / unicode-xid predicate. Non-trivial = (built-in, shape) pairs swept.")
     res.coverage["samples"] = samples
     res.extra["per_builtin_shape"] = per
     res.extra["toolchain"] = toolchain()
